@@ -199,7 +199,9 @@ public:
             return {pos, lo, hi};
         }
 
-        auto p = int64_t(root_slope * (k - first_key)) + root_intercept;
+        // saturate: the product may exceed the range of int64_t for keys far away from the first key
+        auto root_p = root_slope * (k - first_key);
+        auto p = (root_p < Floating(uint64_t(1) << 62) ? int64_t(root_p) : int64_t(1) << 62) + root_intercept;
         auto pos = std::min<size_t>(p > 0 ? size_t(p) : 0ull, root_range);
 
         for (const auto &level : levels) {
@@ -345,7 +347,9 @@ struct CompressedPGMIndex<K, Epsilon, EpsilonRecursive, Floating>::CompressedLev
     }
 
     inline size_t operator()(const std::vector<Floating> &slopes, size_t i, K k) const {
-        auto pos = int64_t(get_slope(slopes, i) * (k - keys[i])) + get_intercept(i);
+        // saturate: the product may exceed the range of int64_t for keys far away from the segment
+        auto p = get_slope(slopes, i) * (k - keys[i]);
+        auto pos = (p < Floating(uint64_t(1) << 62) ? int64_t(p) : int64_t(1) << 62) + get_intercept(i);
         return pos > 0 ? size_t(pos) : 0ull;
     }
 
